@@ -1,7 +1,7 @@
 (* C07Hold.v -- C07 case record and spec-side judgement: an independent reader applying the CNB
    field names and defaults to the tree parsed (by Python tomllib) from the text libcnb wrote
    must recover exactly the intended document. *)
-From LV Require Import Base Toml Serde SerdeFacts SpecDocs Builders BuildersFacts.
+From LV Require Import Base Toml Serde SerdeFacts SpecDocs Builders BuildersFacts Platform.
 
 Inductive case :=
 | CPlan (calls : list bp_call) (tree : option tv)
@@ -26,13 +26,25 @@ Fixpoint group_eqb (a b : list group) : bool :=
 Definition execd_expected (pairs : list (bytes * bytes)) : tv :=
   TTbl (map (fun kv => (fst kv, TStr (snd kv))) pairs).
 
+(* every string of a launch document is a Rust String -- UTF-8 by construction -- except the working
+   directory, a PathBuf: one that is not UTF-8 has no TOML representation *)
+Definition launch_representable (calls : list lcall) : bool :=
+  forallb (fun p => match p_wd p with Some d => utf8_valid d | None => true end) (l_processes (intended_launch calls)).
+
 Definition holds (c : case) : bool :=
   match c with
+  | CLaunch calls ot rb =>
+      if launch_representable calls then
+        match ot with
+        | Some t => let want := v_launch (intended_launch calls) in
+                    osval_eqb (decode spec_vf false spec_Launch t) (Some want) && osval_eqb rb (Some want)
+        | None => false
+        end
+      else
+        (* a value that cannot be written is a reported failure, never a silently altered document *)
+        match ot with None => true | Some _ => false end
   | CPlan calls (Some t) =>
       match read_build_plan t with Some gs => group_eqb gs (intended_groups calls) | None => false end
-  | CLaunch calls (Some t) rb =>
-      let want := v_launch (intended_launch calls) in
-      osval_eqb (decode spec_vf false spec_Launch t) (Some want) && osval_eqb rb (Some want)
   | CDoc k v (Some t) rb =>
       osval_eqb (decode spec_vf false (spec_schema k) t) (Some v) &&
       osval_eqb rb (Some (norm_val (spec_schema k) v))
